@@ -712,6 +712,9 @@ func (c *c12ctx) commutativeBody(list []ast.Stmt, k types.Object, locals map[typ
 						}
 					}
 					o := identObj(info, id)
+					if o != nil && o == k {
+						return "the range key " + id.Name + " is reassigned inside the loop: stores indexed by it are no longer at distinct keys (two source keys can land in one slot, the survivor depends on map order)"
+					}
 					if o != nil && locals[o] {
 						continue
 					}
